@@ -32,6 +32,36 @@ POOL_UTF8 = ["Maintainer: José Muñoz <j@example.org>\n", "Description: 中文 
 ALPHA = "abcdefghijklmnopqrstuvwxyzABCDEFGHIJKLMNOPQRSTUVWXYZ0123456789 .:,-+~()<>=|/_#%"
 
 
+# characters str.splitlines() treats as line boundaries but the file format does not: a line of a
+# published text may contain them (start / middle / before the final newline)
+SPLIT_ASCII = ["\x0b", "\x0c", "\x1c", "\x1d", "\x1e"]
+SPLIT_WIDE = ["\x85", "\u2028", "\u2029"]
+
+
+def split_nl(text):
+    """lines of a text, cut at '\n' only, newlines kept"""
+    parts = text.split("\n")
+    out = [x + "\n" for x in parts[:-1]]
+    if parts[-1]:
+        out.append(parts[-1])
+    return out
+
+
+def special_line(rng, ascii_only=False):
+    ch = rng.choice(SPLIT_ASCII + (SPLIT_WIDE if utf8_ok() and not ascii_only else []))
+    body = "".join(rng.choice(ALPHA) for _ in range(rng.randint(1, 12)))
+    form = rng.randrange(5)
+    if form == 0:
+        return ch + body + "\n"
+    if form == 1:
+        return body + ch + "\n"
+    if form == 2:
+        return ch + "\n"
+    if form == 3:
+        return body[:len(body) // 2] + ch + body[len(body) // 2:] + ch + "\n"
+    return body[:len(body) // 2] + ch + body[len(body) // 2:] + "\n"
+
+
 def utf8_ok():
     import locale
     return (locale.getpreferredencoding(False) or "").lower().replace("-", "") == "utf8"
@@ -42,6 +72,8 @@ LONG = [False]     # set per scenario: some lines are several hundred characters
 
 def rand_line(rng, uniq=None):
     r = rng.random()
+    if r > 0.9:
+        return special_line(rng)
     if LONG[0] and r < 0.6:
         s = "".join(rng.choice(ALPHA) for _ in range(rng.randint(300, 700))) + "\n"
     elif r < 0.45:
@@ -80,6 +112,10 @@ def make_texts(rng, hist, nw, maxlen, forced=None):
     if nw is not None:
         forced[hist[-1]] = nw
     texts = {}
+    # for a third of the histories: a line containing a character that str.splitlines() (but not the
+    # file format) treats as a boundary is ADDED at the top by the second version and stays there,
+    # so that the later patches of a chain edit lines BELOW it
+    top = special_line(rng) if rng.random() < 0.35 else None
     for _attempt in range(300):
         texts = {}
         base = [rand_line(rng, i) for i in range(rng.randint(0, maxlen))]
@@ -90,10 +126,17 @@ def make_texts(rng, hist, nw, maxlen, forced=None):
                 prev = texts[c]
                 continue
             t = mutate(rng, prev) if rng.random() < 0.85 else [rand_line(rng) for _ in range(rng.randint(0, maxlen))]
+            if top is not None:
+                if t and t[0] == top:
+                    t = t[1:]
+                if texts:
+                    t = [top] + t
             if c in forced:
                 t = t[:forced[c]]
+                if top is not None and forced[c] == 1 and t == [top]:
+                    t = [top[:-1] + "%d\n" % c]      # single-line texts must stay different from each other
                 while len(t) < forced[c]:
-                    t.insert(rng.randint(0, len(t)), rand_line(rng))
+                    t.insert(rng.randint(1 if (top is not None and t) else 0, len(t)), rand_line(rng))
             else:
                 t = t[:maxlen]
             if any(t == o for o in texts.values()):
@@ -176,6 +219,8 @@ def make_texts_big(rng, ids, forced, prof):
         base = [one] * n
     else:
         base = big_lines(rng, length_list(rng, n, prof.get("len", "short"), prof.get("total")))
+        if rng.random() < 0.5:      # a line with a splitlines()-only boundary at the top: the edits happen below it
+            base[0] = special_line(rng, ascii_only=True)
     texts, prev = {}, base
     for c in ids:
         if c in texts:
@@ -187,6 +232,8 @@ def make_texts_big(rng, ids, forced, prof):
                 pos = rng.randrange(len(t) + 1)
                 op = rng.choice("idr")
                 new = big_lines(rng, [rng.choice(BOUNDARY_LENS[:15]) for _ in range(rng.randint(1, 2))])
+                if rng.random() < 0.15:
+                    new[0] = special_line(rng, ascii_only=True)
                 if op == "i" or not t:
                     t[pos:pos] = new
                 elif op == "d":
@@ -283,7 +330,7 @@ def diff_e(workdir, old, new):
     os.unlink(b)
     if p.returncode not in (0, 1):
         return None
-    return p.stdout.decode("utf-8").splitlines(True)
+    return [p.stdout.decode("utf-8")]          # callers join; never cut at anything but what diff wrote
 
 
 # ------------------------------------------------------------------ repository
@@ -366,7 +413,7 @@ def build_scenario(rng, inp, canonical=False, maxlen=6, use_diff=None, inject_mo
         variants = ["junk", "flip", "drop_last", "empty", "other"]
         v = "flip" if canonical else rng.choice(variants)
         bad = good
-        ls = good.splitlines(True)
+        ls = split_nl(good)
         if v == "flip" and good:
             j = rng.randrange(len(ls))
             line = ls[j]
@@ -859,7 +906,7 @@ def execute(casedir, sc, record=True, repo_name="repo", keep_local=False):
     remote, local, tmpd = materialize(casedir, sc, repo_name, keep_local)
     inj = sc["inject"]
     api = sc.get("api") or PLAIN_API
-    lines = sc["texts"][str(sc["in"]["hist"][-1])].splitlines(True)     # what replace_file is given
+    lines = split_nl(sc["texts"][str(sc["in"]["hist"][-1])])     # what replace_file is given
     old_tmp = tempfile.tempdir
     tempfile.tempdir = tmpd
     rec = None
@@ -909,7 +956,7 @@ def pid_lines(sc, ret):
     if not isinstance(ret, list) or not all(isinstance(x, str) for x in ret):
         return GARBAGE
     for c, t in sc["texts"].items():
-        if ret == t.splitlines(True):
+        if ret == split_nl(t):      # the published text cut at '\n' only (a line may contain \x0c, U+2028 ...)
             return int(c)
     if sc["in"]["local0"] == FOREIGN and "".join(ret).encode("utf-8") == sc["local0"]:
         return FOREIGN
@@ -991,6 +1038,12 @@ def judge(sc, exp, obs, proj):
             return "violation", ("the call returned but the local file is %s, the published current content is %s [fault %s; model steps: %s]"
                                  % (name_of(sc, proj["local"]), name_of(sc, exp["local"]), fdesc, steps))
         if proj["ret"] != exp["ret"]:
+            want = sc["texts"].get(str(exp["ret"]))
+            if isinstance(obs["ret"], list) and all(isinstance(x, str) for x in obs["ret"]) and want is not None \
+                    and "".join(obs["ret"]) == want:
+                return "violation", ("the call returned the right text but as a list of %d items where the published content has %d "
+                                     "lines (cut at something else than '\\n') [fault %s; model steps: %s]"
+                                     % (len(obs["ret"]), len(split_nl(want)), fdesc, steps))
             return "violation", ("the call returned lines that are %s, expected the lines of %s [fault %s; model steps: %s]"
                                  % (name_of(sc, proj["ret"]), name_of(sc, exp["ret"]), fdesc, steps))
         if proj["dotNew"] != "absent":
